@@ -134,6 +134,8 @@ static std::vector<double> runProgram(const json& prog, int N) {
         else if (o == "binS") st.back() = binaryS<Eval>(op["f"], op["side"], st.back(), qd(op["q"]));
         else if (o == "cmpd") { Eval y = st.back(); st.pop_back(); compound<Eval>(op["f"], st.back(), y); }
         else if (o == "cmpdS") compoundS<Eval>(op["f"], st.back(), qd(op["q"]));
+        else if (o == "binSelf") st.back() = binary<Eval>(op["f"], st.back(), st.back());
+        else if (o == "cmpdSelf") compound<Eval>(op["f"], st.back(), st.back());      // aliased operands
         else throw std::runtime_error("unknown op " + o);
     }
     std::vector<double> r;
